@@ -159,11 +159,16 @@ func (g *c06APIGen) flip(pat string) string {
 func (g *c06APIGen) answer(kind, pat string, table []c06Entry) string {
 	switch kind {
 	case "address":
-		if g.rng.Intn(100) < 60 {
+		switch w := g.rng.Intn(100); {
+		case w < 48:
 			return c06V4[g.rng.Intn(len(c06V4))]
+		case w < 60:
+			return c06OddV4[g.rng.Intn(len(c06OddV4))]
+		case w < 82:
+			return c06V6[g.rng.Intn(len(c06V6))]
+		default:
+			return c06OddV6[g.rng.Intn(len(c06OddV6))]
 		}
-
-		return c06V6[g.rng.Intn(len(c06V6))]
 	case "exception":
 		return []string{"A", "AAAA"}[g.rng.Intn(2)]
 	case "self":
